@@ -252,12 +252,33 @@ pub fn guarded<F: Future<Output = ()>>(rt: &tokio::runtime::Runtime, f: F) -> bo
   std::panic::catch_unwind(std::panic::AssertUnwindSafe(|| rt.block_on(f))).is_ok()
 }
 
-/// Wall-clock bounds used as verdicts are multiplied by VH_SLOW (set by the driver for sanitizer flavours, which
-/// slow the program down 5-20x); default 1.
+/// Wall-clock bounds used as verdicts ("must have happened within X") are multiplied by this factor:
+/// VH_SLOW (set by the driver for sanitizer flavours and Miri, which slow the program down 5-1000x; default 1) times
+/// an oversubscription factor read from /proc/loadavg - ceil(1-minute load / cpus), 1 on a machine that is not
+/// oversubscribed, capped at 12, refreshed every 2 s. A bound that is really about rzmq's own timers (lower bounds,
+/// "not before T") must not be scaled.
 pub fn slow_factor() -> u32 {
-  static F: std::sync::OnceLock<u32> = std::sync::OnceLock::new();
-  *F.get_or_init(|| std::env::var("VH_SLOW").ok().and_then(|v| v.parse().ok()).unwrap_or(1).max(1))
+  static ENV: std::sync::OnceLock<u32> = std::sync::OnceLock::new();
+  static LOAD: AtomicU64 = AtomicU64::new(0); // (factor << 32) | seconds since START when measured (+1)
+  static START: std::sync::OnceLock<Instant> = std::sync::OnceLock::new();
+  let env = *ENV.get_or_init(|| std::env::var("VH_SLOW").ok().and_then(|v| v.parse().ok()).unwrap_or(1).max(1));
+  let now_s = START.get_or_init(Instant::now).elapsed().as_secs() + 1;
+  let cached = LOAD.load(Ordering::Relaxed);
+  let (mut f, at) = ((cached >> 32) as u32, cached & 0xFFFF_FFFF);
+  if f == 0 || now_s >= at + 2 {
+    let cpus = std::thread::available_parallelism().map(|n| n.get()).unwrap_or(1) as f64;
+    let load = std::fs::read_to_string("/proc/loadavg").ok().and_then(|t| t.split_whitespace().next().and_then(|x| x.parse::<f64>().ok())).unwrap_or(0.0);
+    f = ((load / cpus).ceil() as u32).clamp(1, 12);
+    LOAD.store(((f as u64) << 32) | now_s, Ordering::Relaxed);
+  }
+  env.saturating_mul(f)
 }
 pub fn scaled(d: Duration) -> Duration {
   d * slow_factor()
+}
+/// The oversubscription part alone (for evidence).
+pub fn load_factor_now() -> u32 {
+  let cpus = std::thread::available_parallelism().map(|n| n.get()).unwrap_or(1) as f64;
+  let load = std::fs::read_to_string("/proc/loadavg").ok().and_then(|t| t.split_whitespace().next().and_then(|x| x.parse::<f64>().ok())).unwrap_or(0.0);
+  ((load / cpus).ceil() as u32).clamp(1, 12)
 }
